@@ -576,6 +576,11 @@ func (w *World) sourceConnectedLocked(r *Server) bool {
 func (w *World) Step() {
 	w.mu.Lock()
 	defer w.mu.Unlock()
+	w.StepLocked()
+}
+
+// StepLocked is Step for callers that hold the mutex (fault hooks that let replication move at a chosen instant).
+func (w *World) StepLocked() {
 	w.Heartbeat++
 	hosts := make([]string, 0, len(w.Servers))
 	for h := range w.Servers {
@@ -683,3 +688,6 @@ func (w *World) DescribeLocked() string {
 // CrashLockedExported crashes a server with the mutex held and returns its connections, which
 // the caller must close outside the mutex (see CloseLater).
 func (w *World) CrashLockedExported(host string) []net.Conn { return w.crashLocked(host) }
+
+// RestartLockedExported brings a crashed server back (caller holds the mutex).
+func (w *World) RestartLockedExported(host string) { w.restartLocked(host) }
